@@ -577,6 +577,14 @@ pub fn cmd_pl(kv: &HashMap<String, String>) -> i32 {
         let o = std::panic::catch_unwind(std::panic::AssertUnwindSafe(|| run_wal_overwrite_scenario(&mut r, &format!("{}", i))));
         results.lock().unwrap().push((1000 + i, "two-commits-wal-rewrite".to_string(), o));
     }
+    // a rollback that removes every segment file of the rollback log at once
+    let n_rb = kv.get("rballn").and_then(|s| s.parse().ok()).unwrap_or(if thorough { 10 } else { 3 });
+    for i in 0..n_rb {
+        let mut r = rng.fork();
+        let sc = crate::io::gen_rollback_all_scenario(&mut r);
+        let o = std::panic::catch_unwind(std::panic::AssertUnwindSafe(|| run_pl_scenario(&sc, &mut r, max_cuts, per_cut.max(12), &format!("rb{}", i))));
+        results.lock().unwrap().push((2000 + i, sc.label.clone(), o));
+    }
     let mut results = std::mem::take(&mut *results.lock().unwrap());
     results.sort_by_key(|r| r.0);
     let mut viol = Vec::new();
